@@ -24,7 +24,7 @@ import gen
 import mp
 
 VERSIONS = {128: (6, 2, 0), 80: (5, 1, 60)}
-_TW = textwrap.TextWrapper(width=80, drop_whitespace=False)
+_TW = textwrap.TextWrapper(width=80, drop_whitespace=False, break_on_hyphens=False)
 
 
 def hx(s):
@@ -36,26 +36,14 @@ def unhx(s):
 
 
 def real_chunks(line):
+    """what the real wrapper's chunker (break_on_hyphens=False) makes of a line"""
     m = _TW._munge_whitespace(line)
     return _TW._split(m), m
 
 
-def _chunks_field(text):
-    return ",".join(hx(c) for c in real_chunks(text)[0]) or "-"
-
-
-def line_field(l):
-    if "$" in l:
-        data, comment = l.split("$", 1)
-        d, c = _chunks_field(data), _chunks_field("$" + comment)
-    else:
-        d, c = "-", "-"
-    return "%s:%s:%s:%s" % (hx(l) or "x", _chunks_field(l), d, c)
-
-
 def request_of(case):
     lines = case["string"].splitlines()
-    return "%d %d 5 %s" % (case["W"], 1 if case["first"] else 0, "/".join(line_field(l) for l in lines) or "-")
+    return "%d %d 5 %s" % (case["W"], 1 if case["first"] else 0, "/".join(hx(l) or "x" for l in lines) or "-")
 
 
 class Hang(BaseException):
